@@ -131,8 +131,8 @@ func (r *Runner) runTool(cfg string, killAt int) (exit int, killed bool, out str
 	cmd.Stdout, cmd.Stderr = &buf, &buf
 	runErr := cmd.Run()
 	out = buf.String()
-	if len(out) > 300 {
-		out = "..." + out[len(out)-300:]
+	if len(out) > 900 {
+		out = "..." + out[len(out)-900:]
 	}
 	if ctx.Err() != nil {
 		return 0, false, out, fmt.Errorf("tool timed out after %v", toolTimeout)
